@@ -6,10 +6,10 @@
    Fresh, at most budget+1 requests, one per hop in redirect order.                               *)
 EXTENDS Fetch, TLC, Json
 Log == ndJsonDeserialize("trace.ndjson")
-VARIABLES l, sid, skip, bad, W
-vars == <<l, sid, skip, bad, W>>
+VARIABLES l, sid, skip, bad, W, cache, cap, drift
+vars == <<l, sid, skip, bad, W, cache, cap, drift>>
 
-Init == l = 1 /\ sid = 0 /\ skip = FALSE /\ bad = <<>> /\ W = <<>>
+Init == l = 1 /\ sid = 0 /\ skip = FALSE /\ bad = <<>> /\ W = <<>> /\ cache = <<>> /\ cap = 1 /\ drift = <<>>
 Why(e) == IF e.panic THEN "panic"
           ELSE IF Len(e.reqs) > e.budget + 1 THEN "too many requests"
           ELSE IF ~IsSubseq(e.reqs, Chain(W, e.url, e.budget)) THEN "requests are not the hops of the redirect chain"
@@ -18,13 +18,18 @@ Why(e) == IF e.panic THEN "panic"
           ELSE "wrong document or source"
 Step == /\ l <= Len(Log) /\ l' = l + 1
         /\ LET e == Log[l] IN
-           CASE e.ev = "reset" -> sid' = e.sid /\ skip' = FALSE /\ W' = e.world /\ UNCHANGED bad
-             [] e.ev # "reset" /\ (skip \/ e.ev # "fetch") -> UNCHANGED <<sid, skip, bad, W>>
+           CASE e.ev = "reset" -> sid' = e.sid /\ skip' = FALSE /\ W' = e.world /\ cache' = <<>> /\ cap' = e.cap /\ UNCHANGED <<bad, drift>>
+             [] e.ev # "reset" /\ (skip \/ e.ev # "fetch") -> UNCHANGED <<sid, skip, bad, W, cache, cap, drift>>
              [] e.ev = "fetch" /\ ~skip ->
-                  IF ~e.panic /\ FetchOK(W, e.url, e.kind, e.budget, e.res, e.reqs)
-                  THEN UNCHANGED <<sid, skip, bad, W>>
-                  ELSE /\ bad' = Append(bad, [sid |-> sid, line |-> l, why |-> Why(e)])
-                       /\ skip' = TRUE /\ UNCHANGED <<sid, W>>
+                  \* the implementation-shaped model runs alongside: its cache is threaded through the session and
+                  \* its prediction (result and exact requests) is compared as drift, never as a verdict
+                  LET g == GetM("fixed", W, cap, cache, e.url, e.kind, e.budget) IN
+                  /\ cache' = g.cache
+                  /\ drift' = IF g.res = e.res /\ g.reqs = e.reqs THEN drift ELSE Append(drift, l)
+                  /\ IF ~e.panic /\ FetchOK(W, e.url, e.kind, e.budget, e.res, e.reqs)
+                     THEN UNCHANGED <<sid, skip, bad, W, cap>>
+                     ELSE /\ bad' = Append(bad, [sid |-> sid, line |-> l, why |-> Why(e)])
+                          /\ skip' = TRUE /\ UNCHANGED <<sid, W, cap>>
 Spec == Init /\ [][Step]_vars
-Done == (l = Len(Log) + 1) => PrintT("VERDICT " \o ToJson([consumed |-> l - 1, bad |-> bad]))
+Done == (l = Len(Log) + 1) => PrintT("VERDICT " \o ToJson([consumed |-> l - 1, bad |-> bad, drift |-> drift]))
 =============================================================================
